@@ -1,0 +1,59 @@
+//go:build verif
+
+package vm
+
+import (
+	"github.com/risor-io/risor/compiler"
+	"github.com/risor-io/risor/object"
+	"github.com/risor-io/risor/op"
+)
+
+// VerifStep, when set, is called by the evaluation loop once per instruction,
+// after the opcode has been fetched and the instruction pointer advanced and
+// before the instruction is dispatched. Set it once, before any VM runs.
+var VerifStep func(vm *VirtualMachine, opcode op.Code)
+
+func (vm *VirtualMachine) verifStep(opcode op.Code) {
+	if VerifStep != nil {
+		VerifStep(vm, opcode)
+	}
+}
+
+// VerifSP returns the stack pointer (index of the top of stack, -1 when empty).
+func (vm *VirtualMachine) VerifSP() int { return vm.sp }
+
+// VerifIP returns the instruction pointer.
+func (vm *VirtualMachine) VerifIP() int { return vm.ip }
+
+// VerifFP returns the frame pointer.
+func (vm *VirtualMachine) VerifFP() int { return vm.fp }
+
+// VerifCode returns the code object being executed.
+func (vm *VirtualMachine) VerifCode() *compiler.Code {
+	if vm.activeCode == nil {
+		return nil
+	}
+	return vm.activeCode.Code
+}
+
+// VerifPeek returns the n-th value from the top of the stack or nil.
+func (vm *VirtualMachine) VerifPeek(n int) object.Object {
+	if vm.sp-n < 0 {
+		return nil
+	}
+	return vm.stack[vm.sp-n]
+}
+
+// VerifFrameCode returns the code object of frame i (0 = oldest) or nil.
+func (vm *VirtualMachine) VerifFrameCode(i int) *compiler.Code {
+	if i < 0 || i > vm.fp {
+		return nil
+	}
+	if fn := vm.frames[i].fn; fn != nil {
+		return fn.Code()
+	}
+	if c := vm.frames[i].code; c != nil {
+		return c.Code
+	}
+	return nil
+}
